@@ -17,6 +17,8 @@ enum JxlThreadPoolImpl {
     Rayon(std::sync::Arc<rayon_core::ThreadPool>),
     #[cfg(feature = "rayon")]
     RayonGlobal,
+    #[cfg(jxl_oxide_verif)]
+    Verif(std::sync::Arc<verif::VerifPool>),
     None,
 }
 
@@ -28,6 +30,8 @@ pub struct JxlScope<'r, 'scope>(JxlScopeInner<'r, 'scope>);
 enum JxlScopeInner<'r, 'scope> {
     #[cfg(feature = "rayon")]
     Rayon(&'r rayon_core::Scope<'scope>),
+    #[cfg(jxl_oxide_verif)]
+    Verif(&'r verif::VerifScope<'scope>),
     None(std::marker::PhantomData<&'r &'scope ()>),
 }
 
@@ -100,6 +104,8 @@ impl JxlThreadPool {
         match &self.0 {
             JxlThreadPoolImpl::Rayon(pool) => Some(&**pool),
             JxlThreadPoolImpl::RayonGlobal | JxlThreadPoolImpl::None => None,
+            #[cfg(jxl_oxide_verif)]
+            JxlThreadPoolImpl::Verif(_) => None,
         }
     }
 
@@ -108,6 +114,8 @@ impl JxlThreadPool {
         match self.0 {
             #[cfg(feature = "rayon")]
             JxlThreadPoolImpl::Rayon(_) | JxlThreadPoolImpl::RayonGlobal => true,
+            #[cfg(jxl_oxide_verif)]
+            JxlThreadPoolImpl::Verif(_) => true,
             JxlThreadPoolImpl::None => false,
         }
     }
@@ -121,6 +129,8 @@ impl JxlThreadPool {
             JxlThreadPoolImpl::Rayon(pool) => pool.spawn(op),
             #[cfg(feature = "rayon")]
             JxlThreadPoolImpl::RayonGlobal => rayon_core::spawn(op),
+            #[cfg(jxl_oxide_verif)]
+            JxlThreadPoolImpl::Verif(pool) => pool.spawn(Box::new(op)),
             JxlThreadPoolImpl::None => op(),
         }
     }
@@ -141,6 +151,8 @@ impl JxlThreadPool {
                 let scope = JxlScope(JxlScopeInner::Rayon(scope));
                 op(scope)
             }),
+            #[cfg(jxl_oxide_verif)]
+            JxlThreadPoolImpl::Verif(pool) => pool.scope(|scope| op(JxlScope(JxlScopeInner::Verif(scope)))),
             JxlThreadPoolImpl::None => op(JxlScope(JxlScopeInner::None(Default::default()))),
         }
     }
@@ -152,6 +164,8 @@ impl JxlThreadPool {
             JxlThreadPoolImpl::Rayon(pool) => pool.install(|| par_for_each(v, op)),
             #[cfg(feature = "rayon")]
             JxlThreadPoolImpl::RayonGlobal => par_for_each(v, op),
+            #[cfg(jxl_oxide_verif)]
+            JxlThreadPoolImpl::Verif(pool) => pool.for_each(v.into_iter().collect(), |_, item| op(item)),
             JxlThreadPoolImpl::None => v.into_iter().for_each(op),
         }
     }
@@ -168,6 +182,16 @@ impl JxlThreadPool {
             JxlThreadPoolImpl::Rayon(pool) => pool.install(|| par_for_each_with(v, init, op)),
             #[cfg(feature = "rayon")]
             JxlThreadPoolImpl::RayonGlobal => par_for_each_with(v, init, op),
+            #[cfg(jxl_oxide_verif)]
+            JxlThreadPoolImpl::Verif(pool) => {
+                let mut state = init.clone();
+                pool.for_each(v.into_iter().collect(), |fresh, item| {
+                    if fresh {
+                        state = init.clone();
+                    }
+                    op(&mut state, item)
+                })
+            }
             JxlThreadPoolImpl::None => {
                 let mut init = init;
                 v.into_iter().for_each(|item| op(&mut init, item))
@@ -186,6 +210,8 @@ impl JxlThreadPool {
             JxlThreadPoolImpl::Rayon(pool) => pool.install(|| par_for_each(v, op)),
             #[cfg(feature = "rayon")]
             JxlThreadPoolImpl::RayonGlobal => par_for_each(v, op),
+            #[cfg(jxl_oxide_verif)]
+            JxlThreadPoolImpl::Verif(pool) => pool.for_each(v.iter_mut().collect(), |_, item| op(item)),
             JxlThreadPoolImpl::None => v.iter_mut().for_each(op),
         }
     }
@@ -202,6 +228,16 @@ impl JxlThreadPool {
             JxlThreadPoolImpl::Rayon(pool) => pool.install(|| par_for_each_with(v, init, op)),
             #[cfg(feature = "rayon")]
             JxlThreadPoolImpl::RayonGlobal => par_for_each_with(v, init, op),
+            #[cfg(jxl_oxide_verif)]
+            JxlThreadPoolImpl::Verif(pool) => {
+                let mut state = init.clone();
+                pool.for_each(v.iter_mut().collect(), |fresh, item| {
+                    if fresh {
+                        state = init.clone();
+                    }
+                    op(&mut state, item)
+                })
+            }
             JxlThreadPoolImpl::None => {
                 let mut init = init;
                 v.iter_mut().for_each(|item| op(&mut init, item))
@@ -238,7 +274,151 @@ impl<'scope> JxlScope<'_, 'scope> {
                 let scope = JxlScope(JxlScopeInner::Rayon(scope));
                 op(scope)
             }),
+            #[cfg(jxl_oxide_verif)]
+            JxlScopeInner::Verif(scope) => {
+                scope.push(Box::new(move |scope| op(JxlScope(JxlScopeInner::Verif(scope)))))
+            }
             JxlScopeInner::None(_) => op(JxlScope(JxlScopeInner::None(Default::default()))),
+        }
+    }
+}
+
+#[cfg(jxl_oxide_verif)]
+impl JxlThreadPool {
+    /// Creates a pool that runs every task sequentially on the calling thread, in an order chosen by
+    /// `hooks` (verification only).
+    pub fn verif(hooks: std::sync::Arc<dyn verif::VerifPoolHooks>) -> Self {
+        Self(JxlThreadPoolImpl::Verif(std::sync::Arc::new(verif::VerifPool::new(hooks))))
+    }
+
+    /// Runs every deferred fire-and-forget task (verification only).
+    pub fn verif_drain(&self) {
+        if let JxlThreadPoolImpl::Verif(pool) = &self.0 {
+            pool.drain_all();
+        }
+    }
+}
+
+/// Verification-only pool: deterministic, sequential, order chosen by the harness.
+#[cfg(jxl_oxide_verif)]
+pub mod verif {
+    use std::sync::{Arc, Mutex};
+
+    /// Decisions the harness owns.
+    pub trait VerifPoolHooks: Send + Sync {
+        /// Picks which of `n` pending tasks runs next (0 = first in FIFO order).
+        fn pick(&self, what: &'static str, n: usize) -> usize;
+        /// Whether a fire-and-forget task is deferred (run at a later pool operation) instead of run inline.
+        fn defer(&self) -> bool;
+        /// Whether per-worker scratch (`*_with` variants) is re-created before this task.
+        fn fresh_state(&self) -> bool;
+    }
+
+    type StaticTask = Box<dyn FnOnce() + Send + 'static>;
+
+    pub struct VerifPool {
+        hooks: Arc<dyn VerifPoolHooks>,
+        deferred: Mutex<Vec<StaticTask>>,
+    }
+
+    impl std::fmt::Debug for VerifPool {
+        fn fmt(&self, f: &mut std::fmt::Formatter<'_>) -> std::fmt::Result {
+            write!(f, "VerifPool")
+        }
+    }
+
+    pub type ScopeTask<'scope> = Box<dyn for<'r> FnOnce(&'r VerifScope<'scope>) + Send + 'scope>;
+
+    pub struct VerifScope<'scope> {
+        tasks: Mutex<Vec<ScopeTask<'scope>>>,
+    }
+
+    impl std::fmt::Debug for VerifScope<'_> {
+        fn fmt(&self, f: &mut std::fmt::Formatter<'_>) -> std::fmt::Result {
+            write!(f, "VerifScope")
+        }
+    }
+
+    impl<'scope> VerifScope<'scope> {
+        pub(super) fn push(&self, task: ScopeTask<'scope>) {
+            self.tasks.lock().unwrap().push(task);
+        }
+    }
+
+    impl VerifPool {
+        pub(super) fn new(hooks: Arc<dyn VerifPoolHooks>) -> Self {
+            Self { hooks, deferred: Mutex::new(Vec::new()) }
+        }
+
+        /// Gives every deferred task a chance to run now.
+        fn drain_some(&self) {
+            loop {
+                let task = {
+                    let mut d = self.deferred.lock().unwrap();
+                    if d.is_empty() {
+                        return;
+                    }
+                    // pick 0 = keep everything deferred, k = run the (k-1)-th deferred task now
+                    let k = self.hooks.pick("deferred", d.len() + 1);
+                    if k == 0 {
+                        return;
+                    }
+                    d.remove(k - 1)
+                };
+                task();
+            }
+        }
+
+        pub(super) fn drain_all(&self) {
+            loop {
+                let task = {
+                    let mut d = self.deferred.lock().unwrap();
+                    if d.is_empty() {
+                        return;
+                    }
+                    d.remove(0)
+                };
+                task();
+            }
+        }
+
+        pub(super) fn spawn(&self, op: StaticTask) {
+            if self.hooks.defer() {
+                self.deferred.lock().unwrap().push(op);
+            } else {
+                op();
+            }
+        }
+
+        pub(super) fn scope<'scope, R>(&self, op: impl FnOnce(&VerifScope<'scope>) -> R) -> R {
+            self.drain_some();
+            let scope = VerifScope { tasks: Mutex::new(Vec::new()) };
+            let ret = op(&scope);
+            loop {
+                let task = {
+                    let mut t = scope.tasks.lock().unwrap();
+                    if t.is_empty() {
+                        break;
+                    }
+                    let k = self.hooks.pick("scope", t.len());
+                    t.remove(k)
+                };
+                task(&scope);
+                self.drain_some();
+            }
+            ret
+        }
+
+        pub(super) fn for_each<T>(&self, items: Vec<T>, mut op: impl FnMut(bool, T)) {
+            self.drain_some();
+            let mut items: Vec<Option<T>> = items.into_iter().map(Some).collect();
+            let mut remaining: Vec<usize> = (0..items.len()).collect();
+            while !remaining.is_empty() {
+                let k = self.hooks.pick("for_each", remaining.len());
+                let idx = remaining.remove(k);
+                let fresh = self.hooks.fresh_state();
+                op(fresh, items[idx].take().unwrap());
+            }
         }
     }
 }
